@@ -196,6 +196,8 @@ impl ProbeCore {
         // a read of the wrapped iterator by a virtual thread is an observable use of it (the crate only
         // calls `size_hint` while constructing the concurrent iterator, on the owner's thread)
         if rt::tid() != NO_TID && !rt::silent() {
+            // a scheduling point of its own: another thread may be inside `next()` right now
+            probe_point();
             tlog!("src hint");
         }
         match self.hint {
